@@ -1,5 +1,6 @@
 import PyCliffordModel.Model.Poly
 import PyCliffordModel.Model.Torch
+import PyCliffordModel.Model.TorchPoly
 import PyCliffordModel.Model.Device
 import PyCliffordModel.Model.SBRG
 import PyCliffordModel.Model.Index
@@ -319,6 +320,12 @@ def pureOp (w : List String) : Option String :=
   | ["T.vecexpect", r, t, obs] => do
       let st ← decState r t; let obs ← decRows obs
       pure (encInts (obs.map (T.vecExpect1 st)))
+  | ["T.vexpectpoly", r, ts, p] => do
+      let sts ← (ts.splitOn ";").mapM (decState r); let p ← decPoly p
+      pure (";".intercalate ((T.vexpectPoly sts p).map encCx))
+  | ["T.vexpectlist", r, ts, obs] => do
+      let sts ← (ts.splitOn ";").mapM (decState r); let obs ← decRows obs
+      pure (";".intercalate ((T.vexpectList sts obs).map encInts))
   | ["T.project", r, t, obs] => do
       let st ← decState r t; let obs ← decStrs obs
       pure (encState (T.project st obs))
